@@ -420,6 +420,11 @@ func cmdCheck(args []string) int {
 		cfg.Race = true
 		specTier = "thorough"
 	}
+	if p.ID == "C03" {
+		// the try form is what C03 is about: its full relation (tryStepThorough ...) is used in both
+		// tiers; the other evaluator properties keep the short one in the quick tier
+		specTier = "thorough"
+	}
 	c := &CheckCtx{eng: eng, prop: p, tier: *tier, seed: seed, cfg: cfg, scratch: scratch, oblTr: map[*Obligation]*Tr{},
 		funcs: map[string]bool{}, assumptions: map[string]bool{}, trusted: map[string]bool{}, extra: map[string]any{}, start: start}
 	for _, e := range eng.contracts.errors {
